@@ -29,6 +29,7 @@ import (
 
 type scenario struct {
 	sb      *e2e.Sandbox
+	first   *e2e.Repo // optional: a state built (and cached) even earlier; then `state` is a return to it, served from the cache over the outputs of `before`
 	before  *e2e.Repo // state built successfully before the crash (nil = crash during the first build)
 	state   *e2e.Repo // state being built when the crash happens
 	edit    e2e.Edit
@@ -42,11 +43,23 @@ func (sc *scenario) prepare(bin string) error {
 	lib.RemoveAll(sc.sb.Repo)
 	lib.RemoveAll(sc.sb.Cache)
 	if sc.before != nil {
-		if err := sc.before.Materialize(sc.sb.Repo); err != nil {
+		start := sc.before
+		if sc.first != nil {
+			start = sc.first
+		}
+		if err := start.Materialize(sc.sb.Repo); err != nil {
 			return err
 		}
 		if res := sc.sb.Plz(bin, nil, 120*time.Second, "build", "-n", "4", "//..."); res.Exit != 0 {
-			return fmt.Errorf("pre-crash build of the earlier state failed: %s", lib.Tail(res.Stderr, 300))
+			return fmt.Errorf("pre-crash build of the earliest state failed: %s", lib.Tail(res.Stderr, 300))
+		}
+		if sc.first != nil {
+			if err := sc.before.Sync(sc.sb.Repo, sc.first); err != nil {
+				return err
+			}
+			if res := sc.sb.Plz(bin, nil, 120*time.Second, "build", "-n", "4", "//..."); res.Exit != 0 {
+				return fmt.Errorf("pre-crash build of the earlier state failed: %s", lib.Tail(res.Stderr, 300))
+			}
 		}
 		return sc.state.Sync(sc.sb.Repo, sc.before)
 	}
@@ -75,13 +88,13 @@ func TestC32(t *testing.T) {
 	r := lib.Start("C32")
 	defer lib.End(t, r)
 	r.Level = "fault_enumeration"
-	r.Rule = "case = one (scenario, crash point) pair: scenarios are generated repositories crashed during their first build or during the rebuild after a generated edit, with/without a dir cache; crash points are the hits k=1..N of the verifhook points (N from a counting dry run; every k in the thorough tier, an evenly spaced seeded subset of at most 36 per scenario in the quick tier) plus SIGKILLs from outside at seeded fractions of the measured build duration; plus fs.WriteFile killed at each of its points. Distinct by (scenario, point); non-trivial = the process really died by SIGKILL before finishing"
+	r.Rule = "case = one (scenario, crash point) pair: scenarios are generated repositories crashed during their first build or during the rebuild after a generated edit, with/without a dir cache; crash points are the hits k=1..N of the verifhook points (N from a counting dry run; every k in the thorough tier, an evenly spaced seeded subset of at most 28 per scenario in the quick tier) plus SIGKILLs from outside at seeded fractions of the measured build duration; plus fs.WriteFile killed at each of its points. Distinct by (scenario, point); non-trivial = the process really died by SIGKILL before finishing"
 	r.Assumes = []string{"process death only (SIGKILL); power loss / unsynced data is not modelled", "the recovery build is compared with a from-empty cache-less build at the same path"}
 	bin := lib.PlzBin(false)
 
-	nScen := r.Pick(3, 60)
+	nScen := r.Pick(4, 60)
 	sampled := r.Pick(6, 80)    // external kills per scenario
-	maxPoints := r.Pick(36, 0) // quick tier: an evenly spaced, seeded subset of the N hook hits per scenario; thorough: every hit (0 = no cap)
+	maxPoints := r.Pick(28, 0) // quick tier: an evenly spaced, seeded subset of the N hook hits per scenario; thorough: every hit (0 = no cap)
 	r.ForEach("scenario", nScen, 4, func(i int, rng *rand.Rand) {
 		sb := e2e.NewSandbox(filepath.Join(r.Scratch(), fmt.Sprintf("s%d", i)))
 		defer lib.RemoveAll(sb.Work)
@@ -95,8 +108,14 @@ func TestC32(t *testing.T) {
 			next, e := e2e.ApplyRandomEdit(rng, base, e2e.EditOpts{})
 			sc.before, sc.state, sc.edit = base, next, e
 		}
+		if sc.before != nil && sc.cache && (i%4 == 3 || rng.Intn(2) == 0) {
+			// A, B, back to A: the crashed build is the one that restores A's artifacts from the cache over B's outputs
+			sc.first, sc.before, sc.state = base, sc.state, base.Clone()
+		}
 		kindOf := "first-build"
-		if sc.before != nil {
+		if sc.first != nil {
+			kindOf = "return-to-cached-state-after-" + sc.edit.Kind
+		} else if sc.before != nil {
 			kindOf = "rebuild-after-" + sc.edit.Kind
 		}
 		// Oracle for this scenario's final state.
